@@ -116,6 +116,53 @@ fn main() {
                     _ => xs.set_insn_limit(n).unwrap(),
                 }
             }
+            "lex" => {
+                // lex <ignored> <hex utf-8 text | ->: tokens of the real lexer, one per line
+                let bytes = if words[1] == "-" { Vec::new() } else { hex_bytes(words[1]) };
+                let text = String::from_utf8(bytes).unwrap();
+                let r = catch_unwind(AssertUnwindSafe(|| {
+                    let mut lx = xeh::lex::Lex::new(Xstr::from(text.as_str()));
+                    let mut out = Vec::new();
+                    for _ in 0..10000 {
+                        let t = lx.next();
+                        let ls = lx.last_substr();
+                        let (a, b) = (ls.range().start, ls.range().end);
+                        match t {
+                            Ok(xeh::lex::Tok::EndOfInput) => { out.push(format!("TOK eof {} {}", a, b)); break; }
+                            Ok(xeh::lex::Tok::Word(w)) => out.push(format!("TOK word {} {} {} {}", a, b, w.range().start, w.range().end)),
+                            Ok(xeh::lex::Tok::Whitespace(w)) => out.push(format!("TOK ws {} {} {} {}", a, b, w.range().start, w.range().end)),
+                            Ok(xeh::lex::Tok::Comment(w)) => out.push(format!("TOK comment {} {} {} {}", a, b, w.range().start, w.range().end)),
+                            Ok(xeh::lex::Tok::Literal(Cell::Int(i))) => out.push(format!("TOK int {} {} {}", a, b, i)),
+                            Ok(xeh::lex::Tok::Literal(Cell::Real(r))) => out.push(format!("TOK real {} {} {:016x}", a, b, r.to_bits())),
+                            Ok(xeh::lex::Tok::Literal(Cell::Str(s))) => out.push(format!("TOK str {} {} {}", a, b, s.as_bytes().iter().map(|x| format!("{:02x}", x)).collect::<String>() + "-")),
+                            Ok(xeh::lex::Tok::Literal(Cell::Bitstr(bs))) => out.push(format!("TOK bits {} {} {}", a, b, bs.bits().map(|x| if x != 0 { '1' } else { '0' }).collect::<String>() + "-")),
+                            Ok(xeh::lex::Tok::Literal(other)) => out.push(format!("TOK other {} {} {:?}", a, b, other)),
+                            Err(e) => { out.push(format!("TOK err {} {} {}", a, b, format!("{:?}", e).replace('\n', " "))); break; }
+                        }
+                    }
+                    out
+                }));
+                match r {
+                    Ok(lines) => { for l in lines { println!("{}", l); } println!("LEXDONE"); }
+                    Err(_) => println!("RESULT panic in lexer"),
+                }
+            }
+            "tokloc" => {
+                // tokloc <byte start> <byte end> <hex utf-8 text>: the real token_location of text[start..end]
+                let (a, b): (usize, usize) = (words[0].parse().unwrap(), words[1].parse().unwrap());
+                let text = String::from_utf8(hex_bytes(words[2])).unwrap();
+                let r = catch_unwind(AssertUnwindSafe(|| {
+                    let src = Xstr::from(text.as_str());
+                    let tok = src.substr(a..b);
+                    let sources = vec![(Xstr::from("f"), src.clone())];
+                    xeh::lex::token_location(&sources, &tok).map(|l| (l.line, l.col, l.whole_line.range().start, l.whole_line.range().end))
+                }));
+                match r {
+                    Ok(Some((line, col, ws, we))) => println!("TOKLOC {} {} {} {}", line, col, ws, we),
+                    Ok(None) => println!("TOKLOC none"),
+                    Err(_) => println!("RESULT panic in token_location"),
+                }
+            }
             "eval" => show(catch_unwind(AssertUnwindSafe(|| xs.eval(rest)))),
             "compile" => show(catch_unwind(AssertUnwindSafe(|| xs.compile(rest)))),
             "run" => show(catch_unwind(AssertUnwindSafe(|| xs.run()))),
